@@ -150,17 +150,42 @@ class Roles:
         pub = {m['name'] for m in self.sim['methods'] if m['access'] == 0}   # AS_public == 0
         return [f for f in self.sim_methods() if f.short in pub]
 
+    def builtin_gate_names(self):
+        """keys of the evaluator's built-in gate table (the language-level gate names)"""
+        def find():
+            names = set()
+            for (nm, fl, ln), gl in self.p.facts.globals.items():
+                if nm.endswith('builtInGates') and SX.is_node(gl.get('init')):
+                    for n in SX.walk(gl['init']):
+                        if n['k'] in ('initlist', 'construct') and 'BuiltInGate' in n.get('type', ''):
+                            items = n.get('items') or n.get('args') or []
+                            for x in SX.walk(items[0]) if items and SX.is_node(items[0]) else []:
+                                if x['k'] == 'str':
+                                    names.add(x['v'])
+                                    break
+            return names
+        return self._memo('builtin_gate_names', find)
+
     def sim_classify(self):
-        """{'allocate': f, 'measure': f, 'reset': f, 'gates': [f...], 'qasm': f}"""
+        """{'allocate': f, 'measure': f, 'reset': f, 'gates': [f...], 'qasm': f}
+        Roles are resolved by effect (who writes amplitudes, who clears the flag); a public method that carries the name of a
+        built-in gate is a gate even if it no longer touches the state, and the one remaining single-qubit state writer is the
+        reset even if it no longer clears the flag — the property checks then report the missing effect instead of the role
+        resolution giving up."""
         def find():
             out = {'gates': []}
             mf = self.sim_measured_field
+            gate_names = self.builtin_gate_names()
+            late = []
             for f in self.sim_public():
                 ptypes = [p['type'] for p in f.params]
                 if f.ret == 'int' and not ptypes:
                     out['allocate'] = f
                 elif f.ret == 'int' and ptypes == ['int']:
                     out['measure'] = f
+                elif f.ret == 'void' and ptypes and ptypes[0] == 'int' and f.short in gate_names and not self._writes_amp(f):
+                    out['gates'].append(f)
+                    out.setdefault('inert_gates', []).append(f)
                 elif f.ret == 'void' and ptypes and ptypes[0] == 'int' and self._writes_amp(f):
                     clears = False
                     for n in SX.walk(f.body):
@@ -171,10 +196,16 @@ class Roles:
                                 clears = True
                     if clears and len(ptypes) == 1:
                         out['reset'] = f
+                    elif len(ptypes) == 1 and gate_names and f.short not in gate_names:
+                        late.append(f)      # a single-qubit state writer that is no gate: the reset, minus its flag write
                     else:
                         out['gates'].append(f)
                 elif f.ret == 'std::string' and not ptypes:
                     out['qasm'] = f
+            if 'reset' not in out and len(late) == 1:
+                out['reset'] = late[0]
+            elif late:
+                out['gates'].extend(x for x in late if x is not out.get('reset'))
             for k in ('allocate', 'measure', 'reset', 'qasm'):
                 if k not in out:
                     raise AnalysisBroken('simulator role %s not resolved' % k)
